@@ -2,6 +2,17 @@
 pub uninterp spec fn valid_utf8(b: Seq<u8>) -> bool;
 pub open spec fn str_bytes(s: &str) -> Seq<u8> { s.spec_bytes() }
 
+// `<[u8]>::trim_ascii_start` / `trim_ascii_end` / `trim_ascii`: ASCII white space (incl. CR and LF) removed at the ends
+pub open spec fn is_ascii_ws(b: u8) -> bool { b == 9u8 || b == 10u8 || b == 12u8 || b == 13u8 || b == 32u8 }
+pub open spec fn skip_ws(b: Seq<u8>) -> Seq<u8>
+    decreases b.len()
+{ if b.len() > 0 && is_ascii_ws(b[0]) { skip_ws(b.subrange(1, b.len() as int)) } else { b } }
+pub open spec fn skip_ws_end(b: Seq<u8>) -> Seq<u8>
+    decreases b.len()
+{ if b.len() > 0 && is_ascii_ws(b[b.len() - 1]) { skip_ws_end(b.subrange(0, b.len() - 1)) } else { b } }
+pub assume_specification<'a> [<[u8]>::trim_ascii_start] (s: &'a [u8]) -> (r: &'a [u8]) ensures r@ == skip_ws(s@);
+pub assume_specification<'a> [<[u8]>::trim_ascii_end] (s: &'a [u8]) -> (r: &'a [u8]) ensures r@ == skip_ws_end(s@);
+pub assume_specification<'a> [<[u8]>::trim_ascii] (s: &'a [u8]) -> (r: &'a [u8]) ensures r@ == skip_ws_end(skip_ws(s@));
 pub assume_specification<'a> [std::str::from_utf8] (v: &'a [u8]) -> (r: Result<&'a str, std::str::Utf8Error>)
     ensures match r { Ok(s) => valid_utf8(v@) && str_bytes(s) == v@, Err(_) => !valid_utf8(v@) };
 
